@@ -1,3 +1,5 @@
+import numpy as np
+
 from kappadata.common.transforms.byol_transforms import BYOLTransform0, BYOLTransform1
 from kappadata.common.transforms.mugs_transforms import MUGSStrongGlobalTransform, MUGSStrongLocalTransform
 from kappadata.datasets.kd_wrapper import KDWrapper
